@@ -263,7 +263,14 @@ func (t *ImmutableTree) Iterator(start, end []byte, ascending bool) (corestore.I
 		}
 
 		if isFastCacheEnabled {
-			return NewFastIterator(start, end, ascending, t.ndb), nil
+			itr := NewFastIterator(start, end, ascending, t.ndb)
+			// The index describes the latest version only and a commit publishes its version before
+			// it touches the index: if this tree is still the latest version now that the storage
+			// iterator exists, the iterator cannot see entries of a newer version.
+			if stillLatest, err := t.isLatestTreeVersion(); err == nil && stillLatest {
+				return itr, nil
+			}
+			_ = itr.Close()
 		}
 	}
 	return NewIterator(start, end, ascending, t), nil
